@@ -194,6 +194,7 @@ def build(seed, tier, sites, cfg, n_value, g, sweep=False):
     # the case may be marked as expected to fail: a timeout is an error all the same (and a run without one is XPASS)
     plan['status_fail'] = kernel.stream(seed, 'status').random() < 0.15
     # how the text is spread over files is no business of the timeout: a section may start by including a file
+    plan['failing_assertion'] = kernel.stream(seed, 'failing-assertion').random() < 0.2
     fg = kernel.stream(seed, 'first-include')
     if fg.random() < 0.3:
         plan['first_include'] = [ph for ph in PHASES if fg.random() < 0.5]
@@ -293,6 +294,10 @@ def render(plan):
                 lines.extend(BIG_TEXT if l == '{BIG}' else l for l in e[2])
         if ph == 'setup' and in_suite_mode(plan):
             lines.append('def string TSUITE = %d' % limit_at_end_of_act(plan))
+        if ph == 'assert' and plan.get('failing_assertion'):
+            # the last assertion fails (the action exits with 0): a FAIL - unless a process times out, before it or in
+            # [cleanup] after it: a timeout is reported as HARD_ERROR whatever else happened
+            lines.append('exit-code == 99')
     return '\n'.join(lines) + '\n'
 
 
@@ -642,6 +647,8 @@ def oracle(plan, hist):
                 {'identifier': ident, 'exit': res['exit']})
     else:
         want_ident = 'XPASS' if (plan.get('status_fail') and not in_act_mode(plan)) else 'PASS'
+        if plan.get('failing_assertion') and not in_act_mode(plan) and atc_exits_zero(plan, hist):
+            want_ident = 'XFAIL' if plan.get('status_fail') else 'FAIL'
         if ident != want_ident:
             bad('outcome.pass_when_every_child_finishes_in_time', want_ident,
                 {'identifier': ident, 'stderr': res['stderr'][:300]})
@@ -650,6 +657,11 @@ def oracle(plan, hist):
     if hist['orphans']:
         bad('no_orphan_process', [], hist['orphans'])
     return V
+
+
+def atc_exits_zero(plan, hist):
+    a = [s for s in hist['spawns'] if s['tag'] == 'atc' or any(r['tag'] == s['tag'] and r['kind'].startswith('atc') for r in plan['sites'])]
+    return all(s.get('exit') in (0, None) for s in a)
 
 
 def signature(plan, hist):
